@@ -41,17 +41,24 @@ def merge_rows(paths, out, limit=None, accepted_only=False):
     return n
 
 
-LEX_CFG = 'CONSTANTS MaxW = 2  MaxD = %d  MaxLen = %d\nSPECIFICATION Spec\nVIEW view\nINVARIANTS CompleteOK Emit\nCHECK_DEADLOCK FALSE\n'
+LEX_CFG = 'CONSTANTS MaxW = 2  MaxD = %d  MaxLen = %d  Ctxs = %s\nSPECIFICATION Spec\nVIEW view\nINVARIANTS CompleteOK Emit\nCHECK_DEADLOCK FALSE\n'
 
 
 def gen_lex():
     """one text per transition of the JSON automaton (JsonLex) in five host contexts"""
-    return vlib.cached_tlc("lex", "Gen_Lex", LEX_CFG % (2, 40), workers=1)
+    return vlib.cached_tlc("lex", "Gen_Lex", LEX_CFG % (2, 40, "{1,2,3,4,5}"), workers=1)
 
 
 def gen_lex_walks(seed):
     """thorough tier: random walks through the automaton (texts of up to 60 atoms, containers nested up to 4 deep)"""
-    return vlib.cached_tlc("lex-walks-%d" % seed, "Gen_Lex", LEX_CFG % (4, 60), workers=4, timeout=40, simulate="num=1000000", depth=61, seed=seed)
+    return vlib.cached_tlc("lex-walks-%d" % seed, "Gen_Lex", LEX_CFG % (4, 60, "{1,2,3,4,5}"), workers=4, timeout=40, simulate="num=1000000", depth=61, seed=seed)
+
+
+def gen_lex_numbers(tier):
+    """random walks through the number part of the automaton in coordinate position: long spellings (up to 30 atoms), legal or broken by
+    one atom; a fixed seed in the quick tier so that the cache is reused"""
+    return vlib.cached_tlc("lex-numbers-%s" % tier, "Gen_Lex", LEX_CFG % (0, 30, "{6}"), workers=2, timeout=8 if tier == "quick" else 40,
+                           simulate="num=1000000", depth=31, seed=7)
 
 
 def run_lex(pid, v, tier, seed, out):
@@ -60,13 +67,17 @@ def run_lex(pid, v, tier, seed, out):
     lsum = json.loads(vlib.run_harness(["lex", ldata, out, seed, 3 if tier == "quick" else 12]))
     lstates, lrows = lmeta["distinct"], lsum["rows"]
     evs = [json.loads(l) for l in open(os.path.join(out, "lex.events.ndjson"))]
+    extra = [("number_spelling_rows", gen_lex_numbers(tier)[0], 3)]
     if tier == "thorough":
-        wdata, wmeta = gen_lex_walks(seed)
-        wsum = json.loads(vlib.run_harness(["lex", wdata, out, seed, 2]))
+        extra.append(("random_walk_rows", gen_lex_walks(seed)[0], 2))
+    for name, wdata, nr in extra:
+        wsum = json.loads(vlib.run_harness(["lex", wdata, out, seed, nr]))
         evs += [json.loads(l) for l in open(os.path.join(out, "lex.events.ndjson"))]
         for k in ("evaluations", "mismatches", "l1_vs_encoding_json_drift", "rows"):
             lsum[k] += wsum[k]
-        lsum["random_walk_rows"] = wsum["rows"]
+        for k, n in wsum["by_class"].items():
+            lsum["by_class"][k] = lsum["by_class"].get(k, 0) + n
+        lsum[name] = wsum["rows"]
         lsum["drift_examples"] = (lsum["drift_examples"] or []) + (wsum["drift_examples"] or [])
     if lsum["l1_vs_encoding_json_drift"]:
         raise vlib.Inconclusive("JsonLex and encoding/json.Valid disagree on %d texts, e.g. %s" % (lsum["l1_vs_encoding_json_drift"], lsum["drift_examples"]))
@@ -89,7 +100,7 @@ LEX_RULE = ("JsonLex: pushdown automaton of RFC 8259 over 30 byte classes; TLC v
             "space before the closing quote). Each text is spelled with several representative bytes per class (control bytes, "
             "multi-byte and invalid UTF-8, every escape) and parsed under 2 option sets. C07: not valid JSON => error and no object; "
             "valid => accepted in member contexts; a single number as coordinate => accepted with x bit-identical to "
-            "strconv.ParseFloat; a whole text without \"type\" => rejected. C06: the output of an accepted text is valid JSON, is "
+            "strconv.ParseFloat (also for random number spellings of up to 30 atoms from a walk through the number states); a whole text without \"type\" => rejected. C06: the output of an accepted text is valid JSON, is "
             "accepted again and carries every foreign member with its value (strings exactly, numbers by value). The automaton is "
             "cross-checked against encoding/json.Valid on every text (any disagreement makes the run inconclusive).")
 
@@ -97,12 +108,13 @@ LEX_RULE = ("JsonLex: pushdown automaton of RFC 8259 over 30 byte classes; TLC v
 def lex_cov(lsum, lstates, lrows):
     return {"rule": LEX_RULE, "automaton_states": lstates, "texts_rows": lrows, "evaluations": lsum["evaluations"],
             "mismatches_this_property": lsum["mismatches_this_property"], "by_context_validity_expectation": lsum["by_class"],
-            "random_walk_rows": lsum.get("random_walk_rows", 0)}
+            "random_walk_rows": lsum.get("random_walk_rows", 0), "number_spelling_rows": lsum.get("number_spelling_rows", 0)}
 
 
 def prepare():
     gen()
     gen_lex()
+    gen_lex_numbers("quick")
 
 
 def split(data):
